@@ -111,6 +111,10 @@ func options(k optKind) *slog.HandlerOptions {
 		return &slog.HandlerOptions{Level: slog.LevelInfo, ReplaceAttr: slogutil.ReplaceLevel}
 	case 5:
 		return &slog.HandlerOptions{AddSource: true, Level: slog.Level(-8)}
+	case 11:
+		return &slog.HandlerOptions{Level: slog.Level(math.MinInt64)} // "log everything"
+	case 12:
+		return &slog.HandlerOptions{Level: slog.Level(math.MaxInt64)} // "log nothing below the top"
 	case 10:
 		// every built-in attribute removed: a record without attributes prints as the empty line, the message
 		// member is then the empty string (and still has to be there)
@@ -139,7 +143,7 @@ func options(k optKind) *slog.HandlerOptions {
 	}
 }
 
-const nOpts = 11
+const nOpts = 13
 
 // viaNew gives the Config of the option sets that are built through slogutil.New.
 func viaNew(k optKind) (lvl slog.Level, addTimestamp bool) {
@@ -149,7 +153,7 @@ func viaNew(k optKind) (lvl slog.Level, addTimestamp bool) {
 // mkHandler builds the handler under test for an option set: directly, or (sets 6..9) the way applications get
 // it, from slogutil.New with Format JSONHybrid.
 func mkHandler(w io.Writer, k optKind) slog.Handler {
-	if k < 6 || k == 10 {
+	if k < 6 || k >= 10 {
 		return slogutil.NewJSONHybridHandler(w, options(k))
 	}
 	lvl, ts := viaNew(k)
@@ -281,6 +285,15 @@ var ctxPool = func() []context.Context {
 
 type ctxPoolKey struct{}
 
+// askLevels: the ordinary range and the ends of the int64 range (a comparison by subtraction wraps there).
+var askLevels = func() []slog.Level {
+	out := []slog.Level{math.MinInt64, math.MinInt64 + 1, math.MinInt64 + 7, -1 << 40, 1 << 40, math.MaxInt64 - 1, math.MaxInt64}
+	for l := slog.Level(-8); l <= 12; l++ {
+		out = append(out, l)
+	}
+	return out
+}()
+
 type seqCase struct {
 	Opt    int   `json:"options"`
 	Counts []int `json:"attr_counts_per_level"`
@@ -293,20 +306,20 @@ func runSeq(c seqCase) (what string, compared int) {
 	rec := &plainRecorder{}
 	root := node{mkHandler(rec, optKind(c.Opt)), nil}
 	// Enabled
-	for l := slog.Level(-8); l <= 12; l++ {
+	for _, l := range askLevels {
 		compared++
 		if got := root.h.Enabled(context.Background(), l); got != (l >= configured(o)) {
 			return fmt.Sprintf("Enabled(%v)=%v with configured level %v", l, got, configured(o)), compared
 		}
 	}
 	cur := root
-	levels := []slog.Level{slog.LevelDebug, slog.LevelInfo, slog.LevelWarn, slog.LevelError, slog.LevelError + 4, slogutil.LevelTrace}
+	levels := []slog.Level{slog.LevelDebug, slog.LevelInfo, slog.LevelWarn, slog.LevelError, slog.LevelError + 4, slogutil.LevelTrace, math.MinInt64, math.MinInt64 + 3, math.MaxInt64}
 	for depth, cnt := range c.Counts {
 		// siblings are all derived first (append aliasing needs the later derivation to happen before the earlier one logs)
 		sibs := []node{derive(cur, attrsN(cnt, c.Salt+depth*3)), derive(cur, attrsN(cnt, c.Salt+depth*3+1)), derive(cur, attrsN(1, c.Salt+depth*3+2))}
 		// a derived handler is enabled for exactly the levels its root is
 		for si, sb := range sibs {
-			for l := slog.Level(-8); l <= 12; l++ {
+			for _, l := range askLevels {
 				compared++
 				if got := sb.h.Enabled(context.Background(), l); got != (l >= configured(o)) {
 					return fmt.Sprintf("handler derived with attribute counts %v, sibling %d at depth %d: Enabled(%v)=%v with configured level %v", c.Counts[:depth+1], si, depth+1, l, got, configured(o)), compared
